@@ -195,7 +195,51 @@ def library_exception(e):
     return type(e).__name__, last.name, "%s:%d" % (os.path.basename(last.filename), last.lineno)
 
 
+class ItemHang(BaseException):
+    """one work item consumed more CPU time than any work item of the unchanged tree comes near: a library call that does not
+    terminate (and never reaches a simulated-time call, so that no virtual-time horizon can cut it)"""
+
+
+def _item_hang(sig, frm):
+    raise ItemHang()
+
+
+CURRENT_TIER = ["quick"]  # set by vf/run.py
+_TAINTED = [False]  # this worker process has cut a non-terminating call: a node thread may still be spinning in it
+
+
+def item_cpu_limit():
+    return float(os.environ.get("VERIF_ITEM_CPU_S") or (1200 if CURRENT_TIER[0] == "quick" else 4 * 3600))
+
+
 def guarded(fn, item, rep):
+    """(see _guarded) + a CPU-time watchdog per work item on ITIMER_PROF (C15's per-call guard uses ITIMER_VIRTUAL): a check must
+    report a library call that never returns, not hang with it."""
+    import threading
+    if _TAINTED[0]:
+        rep.cap("work item skipped: this worker process cut a non-terminating library call before")
+        return
+    if threading.current_thread() is not threading.main_thread():
+        return _guarded(fn, item, rep)
+    limit = item_cpu_limit()
+    old = signal.signal(signal.SIGPROF, _item_hang)
+    signal.setitimer(signal.ITIMER_PROF, limit)
+    try:
+        _guarded(fn, item, rep)
+    except ItemHang:
+        _TAINTED[0] = True
+        pid = CURRENT_PID[0] or "C??"
+        rep.violation("%s/library-hangs:%s" % (pid, fn.__name__),
+                      "work item %s of %s used more than %d s of CPU time without finishing (the slowest work item of the unchanged tree needs a small "
+                      "fraction of that): a library call does not terminate" % (repr(item)[:200], fn.__name__, limit),
+                      {"part": "library-raises", "fn": fn.__name__, "traceback": "CPU-time watchdog"})
+        rep.outcome("library-hangs")
+    finally:
+        signal.setitimer(signal.ITIMER_PROF, 0)
+        signal.signal(signal.SIGPROF, old)
+
+
+def _guarded(fn, item, rep):
     """fn(item, rep); an exception raised *by the library* on a call of the harness's own scaffolding (building nodes,
     configuring a link, driving a scenario with documented-valid arguments) is a verdict about the library, not a harness
     error: the scenario the property speaks about cannot even be set up.  Reported under <PID>/library-raises:..."""
